@@ -106,12 +106,12 @@ def run(ck: common.Check):
     cs = C.Cases(ck, ck.rng)
     n = ck.n
     try:
-        cs.simplify(n(700, 4000))
-        cs.comp(n(500, 3000))
-        cs.lift(n(200, 1000))
-        cs.access(n(300, 2000))
-        cs.window(n(300, 2000))
-        cs.value(n(400, 3000))
+        cs.simplify(n(500, 4000))
+        cs.comp(n(400, 3000))
+        cs.lift(n(150, 1000))
+        cs.access(n(250, 2000))
+        cs.window(n(250, 2000))
+        cs.value(n(350, 3000))
     except Exception as e:  # e.g. a mutated implementation raising something unexpected
         ck.broken_obligation("correspondence:real-side-crash", "%s: %s" % (type(e).__name__, e))
     value_lines = C.run_values(ck, cs, work)
@@ -129,7 +129,7 @@ def run(ck: common.Check):
     if not private_interp(ck):
         return
     workers = int(os.environ.get("C02_WORKERS", "10"))
-    remaining = budget - (time.time() - t_start) - (8 if not ck.thorough else 60)
+    remaining = budget - (time.time() - t_start) - (25 if not ck.thorough else 90)
     deadline = time.time() + max(remaining, 40)
     n_inputs = n(3, 5)
     jobs = []
